@@ -26,9 +26,15 @@ def check(run):
         if st['complete']:
             done.append({'S': S, 'N': N})
     # real run on T1: the same ordering monitor on the real adapter trace is part of C07's explorations; here the real responses
-    for N in (3, 4):
-        st = run.explore(f'real run: process T1 N={N} S=4, free-form', FREE + ({'entry': 'process', 'L': 4, 'N': N, 'alphabet': [ord(c) for c in 'AQ*:;?\nX']},), 600)
+    wrote = 0
+    for N, S in (((5, 5), (6, 5), (6, 6), (8, 6)) if thorough else ((5, 5), (6, 5))):
+        st = run.explore(f'real run: ordering monitor on the real adapter trace, process T1 N={N}, streams of {S} bytes over * Q ? LF X ; (queries answer 7), all chunkings',
+                         FREE + ({'entry': 'process', 'L': S, 'N': N, 'alphabet': [ord(c) for c in '*Q?\nX;']},), 900)
         records.extend(st['records'])
+        wrote += sum(1 for r in st['records'] if r.get('wrote'))
+    cov['vacuity']['real_run_executions_that_wrote_a_response'] = wrote
+    if wrote == 0:
+        raise Inconclusive('no real-run execution produced a response')
     viol = {}
     fired = 0
     for r in records:
